@@ -245,7 +245,10 @@ P_Quiesce ==
           THEN {} ELSE {"ExactlyOnce"})
     /\ UNCHANGED <<socks, sends, arrd, pm, py, rbuf, got>>
 
-P_Reset == PInit'
+P_Reset ==
+    /\ socks' = <<>> /\ sends' = <<>> /\ arrd' = {}
+    /\ pm' = <<>> /\ py' = <<>> /\ rbuf' = <<>>
+    /\ got' = {} /\ viol' = {}
 
 ---------------------------------------------------------------------------
 (* The clauses of C09 *)
